@@ -29,6 +29,7 @@ RULE = (
     "outcome class (same object propagates / other exception type+marker / suppressed / RuntimeError); the "
     "documented GeneratorExit rule encoded. Non-trivial: the generator yielded; distinct = distinct "
     "(program, outcome, suspension pattern)."
+    " Extensions of rounds 9-12: asyncio.CancelledError as block outcome; handler raising a group whose only member is the thrown exception; second yields log what is thrown into them (exactly once); the used-up manager entered a second time."
 )
 COMPONENTS = COMPONENTS_BASE
 ASSUMPTIONS = [
